@@ -9,6 +9,8 @@ RULE_LATTICE = ("; lattice_* = the EXHAUSTIVE product of structural operand clas
                 "10 significand shapes x every low-word class beside them (zeros, tie, quarter-ulp limit and their neighbours, short and full-width words "
                 "1-3 binades below, far below, least subnormal / least normal) for both operands x the ulp offsets and exponent differences that matter "
                 "for the operation x spellings round-robin), cut into n slices dealt round-robin of which this tier validates the stated number")
+RULE_SWEEP = ("; exponent_sweep = EVERY exponent of the format for the operations that manipulate exponents or claim exactness at powers of two: exp2 at every "
+              "integer and half-integer, log2 / ln / sqrt / cbrt / recip / to_f32 of every power of two, a generic value times and over every power of two (complete in both tiers)")
 RULE_LATTICE_FN = ("; lattice_exp|log|trig|atrig|hyp = every function of the family on EVERY structural value (10 significand shapes x every "
                    "low-word class beside them) at the exponents where its behaviour changes, both signs where the domain allows: special high words "
                    "(1, powers of two, 1.5, all ones) WITH every kind of low word; cut into n slices of which the tier validates the stated number")
@@ -61,15 +63,15 @@ PLAN = {
     },
     "C04": {
         "level": "exploration",
-        "rule": RULE_TRACE + RULE_LATTICE,
+        "rule": RULE_TRACE + RULE_LATTICE + RULE_SWEEP,
         "models": [MC("MC_P3_mul.cfg", W_MUL), MC("MC_P4_mul.cfg", W_MUL, "thorough")],
-        "traces": [T("arith_mul", (400, 40000), (12, 14)), T("lattice_mul", (4096, 112), (6, 14))],
+        "traces": [T("arith_mul", (400, 40000), (12, 14)), T("lattice_mul", (4096, 112), (6, 14)), T("exponent_sweep", (8, 14), (8, 14))],
     },
     "C05": {
         "level": "exploration",
-        "rule": RULE_TRACE + RULE_LATTICE,
+        "rule": RULE_TRACE + RULE_LATTICE + RULE_SWEEP,
         "models": [MC("MC_P3_div.cfg", W_DIV, "thorough")],
-        "traces": [T("arith_div", (350, 30000), (12, 14)), T("lattice_div", (8192, 112), (6, 14))],
+        "traces": [T("arith_div", (350, 30000), (12, 14)), T("lattice_div", (8192, 112), (6, 14)), T("exponent_sweep", (8, 14), (8, 14))],
     },
     "C19": {
         "level": "exploration",
@@ -98,10 +100,10 @@ PLAN = {
     },
     "C09": {
         "level": "model_checking",
-        "rule": RULE_TRACE + "; conv_small = From<i8|u8|i16|u16> and the round trip for every value of the type" + RULE_LATTICE,
+        "rule": RULE_TRACE + "; conv_small = From<i8|u8|i16|u16> and the round trip for every value of the type" + RULE_LATTICE + RULE_SWEEP,
         "models": [MC("MC_P3_wide.cfg", W_WIDE), MC("MC_P4_wide.cfg", W_WIDE), MC("MC_P3_toint_wide.cfg", W_TOINT, slices=8), MC("MC_P5_toint_narrow.cfg", W_TOINT),
                    MC("MC_P4_toint_wide.cfg", W_TOINT, "thorough")],
-        "traces": [T("conv", (600, 50000), (10, 14)), T("conv_small", (1, 1), (4, 16)), T("lattice_un", (64, 14), (4, 14))],
+        "traces": [T("conv", (600, 50000), (10, 14)), T("conv_small", (1, 1), (4, 16)), T("lattice_un", (64, 14), (4, 14)), T("exponent_sweep", (8, 14), (8, 14))],
     },
     "C10": {
         "level": "model_checking",
@@ -153,22 +155,22 @@ PLAN = {
     },
     "C13": {
         "level": "exploration",
-        "rule": RULE_TRACE + "; sqrt/cbrt/hypot are decided by exact dyadic inequalities on r^2, r^3; powi against a ball enclosure of x^|n| by binary powering" + RULE_LATTICE_FN,
+        "rule": RULE_TRACE + "; sqrt/cbrt/hypot are decided by exact dyadic inequalities on r^2, r^3; powi against a ball enclosure of x^|n| by binary powering" + RULE_LATTICE_FN + RULE_SWEEP,
         "models": [MC("MC_P4_sqrt.cfg", W_SQRT, slices=8), MC("MC_P3_powi.cfg", W_POWI, slices=8), MC("MC_P3_cbrt.cfg", W_CBRT, slices=8), MC("MC_P4_cbrt.cfg", W_CBRT, "thorough"), MC("MC_P5_cbrt.cfg", W_CBRT, "thorough"), MC("MC_P4_powi.cfg", W_POWI, "thorough"),
                    MC("MC_P5_sqrt.cfg", W_SQRT, "thorough"), MC("MC_P5_powi.cfg", W_POWI, "thorough")],
-        "traces": [T("roots", (200, 4000), (8, 14)), T("powi", (120, 2500), (6, 14)), T("lattice_pow", (256, 14), (8, 14))],
+        "traces": [T("roots", (200, 4000), (8, 14)), T("powi", (120, 2500), (6, 14)), T("lattice_pow", (256, 14), (8, 14)), T("exponent_sweep", (8, 14), (8, 14))],
     },
     "C14": {
         "level": "exploration",
-        "rule": RULE_TRACE + "; exp/exp2/exp_m1/powf against rigorous ball enclosures (Taylor series with explicit remainder, argument reduction with an enclosure of ln 2) computed in TLA+; stratified over every entry of the exp(n/128)-1, exp(1/2)^n, exp(16)^n tables and both sides of each range switch" + "; exp_nodes = exp (and a sample of sinh, cosh, tanh, exp_m1) at the exact NODES of the lookup tables: x = y/2 for every integer y the reduction can produce, x = n/128 for every entry of the exp(n/128)-1 table, every exp(16)^a entry x every n/128, with a zero and with tiny low words: each table entry is then used bare or in a single product (complete in both tiers)" + RULE_LATTICE_FN,
+        "rule": RULE_TRACE + "; exp/exp2/exp_m1/powf against rigorous ball enclosures (Taylor series with explicit remainder, argument reduction with an enclosure of ln 2) computed in TLA+; stratified over every entry of the exp(n/128)-1, exp(1/2)^n, exp(16)^n tables and both sides of each range switch" + "; exp_nodes = exp (and a sample of sinh, cosh, tanh, exp_m1) at the exact NODES of the lookup tables: x = y/2 for every integer y the reduction can produce, x = n/128 for every entry of the exp(n/128)-1 table, every exp(16)^a entry x every n/128, with a zero and with tiny low words: each table entry is then used bare or in a single product (complete in both tiers)" + RULE_LATTICE_FN + RULE_SWEEP,
         "models": [MC("MC_P4_expflow.cfg", W_EXPFLOW), MC("MC_P4_powfflow.cfg", W_POWF), MC("MC_P4_exp2scale.cfg", W_EXP2SCALE, slices=8), MC("MC_P4_exp2flow.cfg", W_EXP2FLOW, slices=8),
                    MC("MC_P5_expflow.cfg", W_EXPFLOW, "thorough"), MC("MC_P5_powfflow.cfg", W_POWF, "thorough"), MC("MC_P5_exp2scale.cfg", W_EXP2SCALE, "thorough"), MC("MC_P5_exp2flow.cfg", W_EXP2FLOW, "thorough")],
-        "traces": [T("exps", (250, 5000), (14, 14)), T("exp_nodes", (14, 14), (14, 14)), T("lattice_exp", (64, 14), (8, 14))],
+        "traces": [T("exps", (250, 5000), (14, 14)), T("exp_nodes", (14, 14), (14, 14)), T("lattice_exp", (64, 14), (8, 14)), T("exponent_sweep", (8, 14), (8, 14))],
     },
     "C15": {
         "level": "exploration",
-        "rule": RULE_TRACE + "; logarithms are enclosed by one or two rigorous Newton steps ln x = h + ln(1 + (x - e^h)/e^h) from the claimed result as hint, in ball arithmetic" + RULE_LATTICE_FN,
-        "traces": [T("logs", (150, 3000), (14, 14)), T("lattice_log", (64, 14), (8, 14))],
+        "rule": RULE_TRACE + "; logarithms are enclosed by one or two rigorous Newton steps ln x = h + ln(1 + (x - e^h)/e^h) from the claimed result as hint, in ball arithmetic" + RULE_LATTICE_FN + RULE_SWEEP,
+        "traces": [T("logs", (150, 3000), (14, 14)), T("lattice_log", (64, 14), (8, 14)), T("exponent_sweep", (8, 14), (8, 14))],
     },
     "C16": {
         "level": "exploration",
